@@ -1,5 +1,7 @@
 import LenaModel.DriverUtil
 import LenaModel.Model.C16
+import LenaModel.Model.C16Spec
+import LenaModel.Model.C16X
 /-! Model driver for C16.  Every request carries the adapter arguments
   "caps":[run,fill,request,compute,reset] (booleans: which callables the wrapped element has),
   "bufsize":int, "reset":null|bool, "bi":bool, "bo":bool, "yor":bool
@@ -12,15 +14,31 @@ Requests:
   {"op":"init",...}                -> {"e":"LenaTypeError"|"LenaValueError"} | {"fill":b,"request":b,"reset":b}
   {"op":"run",...,"xs":[ints]}     -> {"e":..} | {"r":[[ints]],"spec":[[ints]]}  (spec: block specification)
   {"op":"ops",...,"ops":[int|null]} (null = request) -> {"e":..} | {"t":[[out|null,n_count,len_in,len_out],..]}
-  {"op":"split",...,"m":int|null,"xs":[ints]} -> {"e":..} | {"r":[[ints]]} -/
+  {"op":"split",...,"m":int|null,"xs":[ints]} -> {"e":..} | {"r":[[ints]]}
+Replies also carry the specification side of the theorems, evaluated on the same case:
+  init: "contract" (`initContract`);  run: "spec" (`specBlocks … (chunks …)`), "seqspec" (rhs of `seq_run_blocks`);
+  ops: "o" (`runOps`: outputs per request, final sizes), "fills", "inv" (`invOps`), "spec" (closed history: `emitAll`
+  over `segments`/`chunks` with yield_on_remainder, `runFillCompute` on the filled values without), "rec" (`lstEl`,
+  lhs of `accounted_once_recorded`).
+Extended model (Model/C16X.lean); "el" additionally {"stop":int|null,"stores":bool} (fill raises LenaStopFill for every
+value >= stop, after/without storing it), "ev":"call"|"request" (where the adapter iterates generator objects):
+  {"op":"opsx",...,"ops":[int|null|"r"]} ("r" = FillRequest.reset()) -> {"t":[[out|null,raised,n_count,len_in,len_out],..]}
+  {"op":"splitx",...,"m","xs"} -> {"r":[[ints]],"raised":bool}
+  {"op":"runx",...,"xs"} -> {"r":[[ints]],"raised":bool}   (_run_fill_compute) -/
 open Lean Lena.Drv Lena.C16
 
 structure TestEl where
   k : Nat
   mutates : Bool
   map : Bool
-  pre : Bool
-  post : Bool
+  /-- 0: none; 1: `x ↦ x+10`; 2: a Run element that can break the flow: nothing for multiples of 3, `x+10` and
+  `x+20` for other odd values, `x+10` otherwise -/
+  pre : Nat
+  /-- 0: none; 1: `r ↦ r + [99]`; 2: a Run element yielding `r + [99]` and `r + [98]` -/
+  post : Nat
+  /-- `fill` raises `LenaStopFill` for every value `≥ stop` -/
+  stop : Option Int := none
+  stores : Bool := false
 
 def results (k : Nat) (s : List Int) : List (List Int) := (List.range k).map (fun (j : Nat) => (j : Int) :: s)
 
@@ -32,16 +50,54 @@ def baseEl (t : TestEl) : El (List Int) Int (List Int) where
     if t.map then (xs.map (fun x => [x + 100]), s)
     else let s' := s ++ xs; (results t.k s', if t.mutates then s' ++ [-1] else s')
 
+def preOf (c : Nat) (x : Int) : List Int :=
+  match c with
+  | 0 => [x]
+  | 1 => [x + 10]
+  | _ => if x % 3 == 0 then [] else if x % 2 == 1 then [x + 10, x + 20] else [x + 10]
+
+def postOf (c : Nat) (rs : List (List Int)) : List (List Int) :=
+  match c with
+  | 0 => rs
+  | 1 => rs.map (· ++ [99])
+  | _ => rs.flatMap (fun r => [r ++ [99], r ++ [98]])
+
 def testEl (t : TestEl) : El (List Int) Int (List Int) :=
-  if t.pre || t.post then
-    seqEl (fun x => if t.pre then [x + 10] else [x])
-      (fun rs => if t.post then rs.map (· ++ [99]) else rs) (baseEl t)
-  else baseEl t
+  if t.pre != 0 || t.post != 0 then seqEl (preOf t.pre) (postOf t.post) (baseEl t) else baseEl t
+
+/-- the test element with a raising `fill` -/
+def testElX (t : TestEl) : ElX (List Int) Int (List Int) :=
+  match t.stop with
+  | none => ElX.ofEl (baseEl t)
+  | some j => ElX.stopOn (baseEl t) (fun x => decide (j ≤ x)) t.stores
 
 def parseEl (j : Json) : Option TestEl := do
   let k ← nat? (getD j "k")
   let b (key : String) : Bool := (bool? (getD j key)).getD false
-  some { k := k, mutates := b "mut", map := b "map", pre := b "pre", post := b "post" }
+  -- "pre"/"post": false/true (0/1) or a code 0..2
+  let c (key : String) : Nat := match bool? (getD j key) with
+    | some v => if v then 1 else 0
+    | none => (nat? (getD j key)).getD 0
+  some { k := k, mutates := b "mut", map := b "map", pre := c "pre", post := c "post",
+         stop := int? (getD j "stop"), stores := b "stores" }
+
+def parseOpsX (j : Json) : Option (List (OpX Int)) := do
+  let a ← arr? j
+  a.toList.mapM (fun v => if v.isNull then some OpX.request
+    else match str? v with
+      | some _ => some OpX.reset
+      | none => (int? v).map OpX.fill)
+
+def ofObs (c : CallObs (List Int)) : Json :=
+  Json.arr #[ofOpt (ofList ofIntList) c.out, Json.bool c.raised, ofNat c.nCount, ofNat c.lenIn, ofNat c.lenOut]
+
+/-- is the history closed by a request? -/
+def closed : List (Op Int) → Bool
+  | [] => false
+  | [.request] => true
+  | _ :: r => closed r
+
+def dropLastOp (ops : List (Op Int)) : List (Op Int) := ops.dropLast
 
 def parseCaps (j : Json) : Option Caps := do
   let a ← arr? j
@@ -71,28 +127,59 @@ def parseOps (j : Json) : Option (List (Op Int)) := do
   let a ← arr? j
   a.toList.mapM (fun v => if v.isNull then some Op.request else (int? v).map Op.fill)
 
+/-- `initContract` on the raw arguments (reported with every "init" reply, accepted or rejected) -/
+def contractOf (j : Json) : Json :=
+  match parseCaps (getD j "caps"), int? (getD j "bufsize"), optBool (getD j "reset"), bool? (getD j "bi"),
+      bool? (getD j "bo"), bool? (getD j "yor") with
+  | some caps, some n, some rst, some bi, some bo, some yor => Json.bool (initContract caps n rst bi bo yor)
+  | _, _, _, _, _, _ => Json.null
+
 def handle (j : Json) : Json :=
   match parseCfg j with
   | none => err "bad adapter arguments"
-  | some (.error e) => errJson e
+  | some (.error e) =>
+    if str? (getD j "op") == some "init" then (errJson e).setObjVal! "contract" (contractOf j) else errJson e
   | some (.ok c) =>
     match str? (getD j "op") with
     | some "init" =>
-      Json.mkObj [("fill", Json.bool c.hasFill), ("request", Json.bool c.hasRequest), ("reset", Json.bool c.hasReset)]
+      Json.mkObj [("fill", Json.bool c.hasFill), ("request", Json.bool c.hasRequest), ("reset", Json.bool c.hasReset),
+        ("contract", contractOf j)]
     | some "run" =>
       match parseEl (getD j "el"), intList? (getD j "xs") with
       | some t, some xs =>
         -- "spec": the right-hand side of theorem `run_blocks` (block specification), compared as well
         Json.mkObj [("r", ofOuts (runFR (testEl t) c [] xs).1),
           ("spec", ofOuts (specBlocks (blockOf (testEl t) c) (testEl t).reset c.bufsize c.reset c.yor []
-            (chunks c.bufsize xs)))]
+            (chunks c.bufsize xs))),
+          -- the right-hand side of theorem `seq_run_blocks` (FillRequestSeq: `_run_fill_compute`)
+          ("seqspec", ofOuts (specBlocks
+            (fun s b => ((postOf t.post) (blockFill (baseEl t) s (b.flatMap (preOf t.pre))).1,
+                         (blockFill (baseEl t) s (b.flatMap (preOf t.pre))).2))
+            (baseEl t).reset c.bufsize c.reset c.yor [] (chunks c.bufsize xs)))]
       | _, _ => err "bad run args"
     | some "ops" =>
       match parseEl (getD j "el"), parseOps (getD j "ops") with
       | some t, some ops =>
-        let tr := traceOps (testEl t) c.bufsize c.reset c.bufferInput c.yor ops (St.init [])
+        let e := testEl t
+        let N := c.bufsize
+        let tr := traceOps e N c.reset c.bufferInput c.yor ops (St.init [])
+        let ro := runOps e N c.reset c.bufferInput c.yor ops (St.init [])
+        -- closed history: the specification of what all requests together yield
+        let spec : Json :=
+          if closed ops then
+            let body := dropLastOp ops
+            if c.yor then ofOuts (emitAll e c.reset [] ((segments body []).flatMap (chunks N))).1
+            else ofOuts (runFillCompute e N c.reset false [] (fills body)).1
+          else Json.null
+        -- the recording element, reset on: lhs of `accounted_once_recorded`
+        let rr := runOps (lstEl : El (List Int) Int (List Int)) N true c.bufferInput c.yor ops (St.init [])
         Json.mkObj [("t", ofList (fun (r : Option (List (List Int)) × Nat × Nat × Nat) =>
-          Json.arr #[ofOpt ofOuts r.1, ofNat r.2.1, ofNat r.2.2.1, ofNat r.2.2.2]) tr)]
+            Json.arr #[ofOpt ofOuts r.1, ofNat r.2.1, ofNat r.2.2.1, ofNat r.2.2.2]) tr),
+          ("o", Json.arr #[ofList ofOuts ro.1, ofNat ro.2.nCount, ofNat ro.2.bufIn.length, ofNat ro.2.bufOut.length]),
+          ("fills", ofIntList (fills ops)),
+          ("inv", Json.bool (invOps e N c.reset c.bufferInput c.yor ops (St.init []))),
+          ("spec", spec),
+          ("rec", ofIntList ((rr.1.flatten ++ rr.2.bufOut).flatten ++ rr.2.el ++ rr.2.bufIn))]
       | _, _ => err "bad ops args"
     | some "split" =>
       match parseEl (getD j "el"), intList? (getD j "xs") with
@@ -102,6 +189,29 @@ def handle (j : Json) : Json :=
         | some m => Json.mkObj [("r", ofOuts (splitFR (testEl t) c.bufsize c.reset c.bufferInput c.yor m [] xs))]
         | none => err "bad split bufsize"
       | _, _ => err "bad split args"
+    | some "opsx" =>
+      match parseEl (getD j "el"), parseOpsX (getD j "ops") with
+      | some t, some ops =>
+        let ev := if str? (getD j "ev") == some "request" then Eval.atRequest else Eval.atCall
+        let tr := traceOpsX (testElX t) ev c.bufsize c.reset c.bufferInput c.yor ops (StX.init [])
+        Json.mkObj [("t", ofList ofObs tr.1)]
+      | _, _ => err "bad opsx args"
+    | some "splitx" =>
+      match parseEl (getD j "el"), intList? (getD j "xs") with
+      | some t, some xs =>
+        let mj := getD j "m"
+        match (if mj.isNull then some none else (nat? mj).map some : Option (Option Nat)) with
+        | some m =>
+          let r := splitX (testElX t) Eval.atCall c.bufsize c.reset c.bufferInput c.yor m [] xs
+          Json.mkObj [("r", ofOuts r.1), ("raised", Json.bool r.2)]
+        | none => err "bad split bufsize"
+      | _, _ => err "bad splitx args"
+    | some "runx" =>
+      match parseEl (getD j "el"), intList? (getD j "xs") with
+      | some t, some xs =>
+        let r := runFillComputeX (testElX t) c.bufsize c.reset c.yor [] xs
+        Json.mkObj [("r", ofOuts r.1), ("raised", Json.bool r.2.2)]
+      | _, _ => err "bad runx args"
     | _ => err "unknown op"
 
 def main : IO Unit := run handle
